@@ -175,8 +175,174 @@ fn crowded(t: Tier) -> BoxedStrategy<Case> {
         .boxed()
 }
 
+// --- one living object: every mutator / read-only use, then serialise the *same* object again ---
+
+#[derive(Clone, Debug, Hash, Serialize, Deserialize)]
+pub enum HOp {
+    /// nothing but the serialisation that follows every op (serialising twice in a row)
+    Again,
+    Adjust(Box<MM>),
+    SetRoot(Option<String>),
+    SetSource(u16, String),
+    SetContents(u16, Option<String>),
+    SetFile(Option<String>),
+    SetDebugId(Option<String>),
+    Ignore(u16),
+    /// read-only use between two serialisations (lookups, iteration, data URL)
+    Read(u32, u32),
+    /// continue with a clone of the object
+    CloneSelf,
+}
+
+#[derive(Clone, Debug, Hash, Serialize, Deserialize)]
+pub struct HCase {
+    pub base: MM,
+    /// the object lives inside section 0 of an index map and is reached through
+    /// `get_section_mut` / `get_sourcemap_mut`; the index is what gets serialised
+    pub in_index: bool,
+    pub ops: Vec<HOp>,
+}
+
+fn pool_string() -> BoxedStrategy<String> {
+    proptest::sample::select(vec![
+        "a.js", "b.js", "", "/abs/x.js", "http://h/y.js", "https://h/z.js", "src/lib/c.ts", "r", "r/", "/", "webpack:///", "ü.js", "q\"x",
+    ])
+    .prop_map(str::to_string)
+    .boxed()
+}
+
+fn hop_strategy() -> BoxedStrategy<HOp> {
+    prop_oneof![
+        2 => Just(HOp::Again),
+        3 => small_mm(8).prop_map(|m| HOp::Adjust(Box::new(m))),
+        3 => proptest::option::of(pool_string()).prop_map(HOp::SetRoot),
+        3 => (any::<u16>(), pool_string()).prop_map(|(i, s)| HOp::SetSource(i, s)),
+        2 => (any::<u16>(), proptest::option::of(pool_string())).prop_map(|(i, s)| HOp::SetContents(i, s)),
+        1 => proptest::option::of(pool_string()).prop_map(HOp::SetFile),
+        1 => proptest::option::of(proptest::sample::select(vec![
+                "dfb8e43a-f242-3d73-a453-aeb6a777ef75", "00000000-0000-0000-0000-000000000001", "dfb8e43a-f242-3d73-a453-aeb6a777ef75-a",
+             ]).prop_map(str::to_string)).prop_map(HOp::SetDebugId),
+        1 => any::<u16>().prop_map(HOp::Ignore),
+        2 => (0u32..6, 0u32..40).prop_map(|(l, c)| HOp::Read(l, c)),
+        1 => Just(HOp::CloneSelf),
+    ]
+    .boxed()
+}
+
+fn living(_t: Tier) -> BoxedStrategy<HCase> {
+    (small_mm(12), any::<bool>(), proptest::collection::vec(hop_strategy(), 1..9))
+        .prop_map(|(base, in_index, ops)| HCase { base, in_index, ops })
+        .boxed()
+}
+
+fn inner_mut(obj: &mut sourcemap::DecodedMap) -> &mut sourcemap::SourceMap {
+    match obj {
+        sourcemap::DecodedMap::Regular(sm) => sm,
+        sourcemap::DecodedMap::Index(idx) => match idx.get_section_mut(0).and_then(|s| s.get_sourcemap_mut()) {
+            Some(sourcemap::DecodedMap::Regular(sm)) => sm,
+            _ => unreachable!("the harness put a regular map into section 0"),
+        },
+        sourcemap::DecodedMap::Hermes(_) => unreachable!(),
+    }
+}
+
+fn check_living(c: &HCase, obs: &mut Obs) -> Verdict {
+    use crate::engine::guard;
+    let sm = match c.base.build() {
+        Ok(m) => m,
+        Err(e) => return Verdict::Fail(format!("building the model failed: {e}")),
+    };
+    let mut obj = if c.in_index {
+        sourcemap::DecodedMap::Index(sourcemap::SourceMapIndex::new(
+            Some("bundle.js".into()),
+            vec![sourcemap::SourceMapSection::new((0, 0), None, Some(sourcemap::DecodedMap::Regular(sm)))],
+        ))
+    } else {
+        sourcemap::DecodedMap::Regular(sm)
+    };
+    obs.class(if c.in_index { "object-inside-index-section" } else { "object-top-level" });
+    let verify = |obj: &sourcemap::DecodedMap, when: &str| -> Result<(), String> {
+        let bytes = ser(obj).map_err(|e| format!("{when}: {e}"))?;
+        let v: Value = serde_json::from_slice(&bytes).map_err(|e| format!("{when}: serialised form is not JSON: {e}"))?;
+        check_serialized_any(obj, &v, false).map_err(|e| format!("{when}: {e}; output={}", String::from_utf8_lossy(&bytes)))
+    };
+    if let Err(e) = verify(&obj, "before any op") {
+        return Verdict::Fail(e);
+    }
+    let mut mutated_after_write = false;
+    for (k, op) in c.ops.iter().enumerate() {
+        let r = guard(|| -> Result<(), String> {
+            let sm = inner_mut(&mut obj);
+            let n = sm.get_source_count();
+            match op {
+                HOp::Again => {}
+                HOp::Adjust(adj) => {
+                    let adj = adj.build()?;
+                    sm.adjust_mappings(&adj);
+                }
+                HOp::SetRoot(r) => sm.set_source_root(r.clone()),
+                HOp::SetSource(i, s) => {
+                    if n > 0 {
+                        sm.set_source(u32::from(*i) % n, s);
+                    }
+                }
+                HOp::SetContents(i, s) => {
+                    if n > 0 {
+                        sm.set_source_contents(u32::from(*i) % n, s.as_deref());
+                    }
+                }
+                HOp::SetFile(f) => sm.set_file(f.clone()),
+                HOp::SetDebugId(d) => sm.set_debug_id(d.as_ref().map(|d| d.parse().expect("pool ids parse"))),
+                HOp::Ignore(i) => {
+                    if n > 0 {
+                        sm.add_to_ignore_list(u32::from(*i) % n);
+                    }
+                }
+                HOp::Read(l, col) => {
+                    let _ = sm.lookup_token(*l, *col);
+                    let _ = sm.tokens().count();
+                    let _ = sm.to_data_url().map_err(|e| e.to_string())?;
+                }
+                HOp::CloneSelf => {
+                    let c = sm.clone();
+                    *sm = c;
+                }
+            }
+            Ok(())
+        });
+        match r {
+            Ok(Ok(())) => {}
+            Ok(Err(e)) => return Verdict::Fail(format!("op {k} {op:?}: {e}")),
+            Err(p) => return Verdict::Fail(format!("op {k} {op:?}: {p}")),
+        }
+        obs.class(match op {
+            HOp::Again => "op:serialise-again",
+            HOp::Adjust(_) => "op:adjust_mappings",
+            HOp::SetRoot(_) => "op:set_source_root",
+            HOp::SetSource(..) => "op:set_source",
+            HOp::SetContents(..) => "op:set_source_contents",
+            HOp::SetFile(_) => "op:set_file",
+            HOp::SetDebugId(_) => "op:set_debug_id",
+            HOp::Ignore(_) => "op:add_to_ignore_list",
+            HOp::Read(..) => "op:read-only-use",
+            HOp::CloneSelf => "op:clone",
+        });
+        if !matches!(op, HOp::Again | HOp::Read(..) | HOp::CloneSelf) {
+            mutated_after_write = true;
+        }
+        if let Err(e) = verify(&obj, &format!("after op {k} {op:?} (ops so far {:?})", &c.ops[..=k])) {
+            return Verdict::Fail(e);
+        }
+    }
+    if mutated_after_write && c.ops.len() >= 3 && c.base.tokens.len() >= 2 {
+        obs.nontrivial();
+    }
+    Verdict::Pass
+}
+
 fn subs() -> Vec<Sub> {
     vec![
+        gen_sub("living_object", living, |t| t.pick(20_000, 400_000), check_living),
         gen_sub("deep_nesting", deep, |t| t.pick(600, 12_000), check),
         gen_sub("crowded_positions", crowded, |t| t.pick(4_000, 80_000), check),
         gen_sub("large_maps", large, |t| t.pick(150, 3_000), check),
@@ -188,7 +354,8 @@ pub const DEF: PropertyDef = PropertyDef {
     id: "C03",
     rule: "model maps (regular / Hermes / nested index) built through builder, raw constructor or decoding, optionally passed through \
            rewrite / flatten / adjust_mappings / a round trip; the serialised JSON is read with serde_json::Value and an independent \
-           mappings reader and compared with the map's public accessors. Non-trivial = >= 3 tokens on >= 2 lines plus one of \
+           mappings reader and compared with the map's public accessors; living_object: one object (top level or inside an index section) serialised, then \
+           mutated / used through every setter, adjust_mappings, lookups, clone, and serialised again after every step. Non-trivial = >= 3 tokens on >= 2 lines plus one of \
            {sourceless token, duplicate position, skipped line, JSON-special or non-ASCII string, contents, ignore list, debug id, root}; \
            Hermes additionally a function map; index: >= 2 sections one of which is non-trivial",
     assumptions: &[
